@@ -194,6 +194,10 @@ func RunH(r *vres.Report, test string, sp HSpec) {
 				}
 				outs.Add(o.label)
 				hk := Hash(o.fp)
+				if os.Getenv("VERIF_TRACE_H") != "" {
+					_, dup := seen[hk]
+					fmt.Fprintf(os.Stderr, "H %v dup=%v fp=%s\n", h2, dup, o.fp)
+				}
 				if _, dup := seen[hk]; dup {
 					continue
 				}
